@@ -29,6 +29,11 @@ Theorem C15_direct_child : forall cfg d, direct_child cfg d = true ->
 Proof. exact direct_child_spec. Qed.
 Print Assumptions C15_direct_child.
 
+Theorem C15_open_files_oracle : forall cfg opens, tmp_open_ok cfg opens = true ->
+  forall l p, In l opens -> In p l -> exists rest, p = cfg ++ [47] ++ rest.
+Proof. exact tmp_open_ok_spec. Qed.
+Print Assumptions C15_open_files_oracle.
+
 (* "c" = configured directory, "o" = where TMPDIR points; ".t" = the sorter's own directory *)
 Example C15_nonvacuous :
   let e0 := [[107]; [100; 105; 114]] in
